@@ -192,6 +192,17 @@ struct Run {
 		const long long I[] = { 0, 1, -1, 2, -2, 3, -3, 2147483647LL, -2147483647LL - 1, 2147483648LL, 4294967295LL, 4294967296LL, 4294967297LL,
 			(1LL << 53) - 1, 1LL << 53, (1LL << 53) + 1, -((1LL << 53) + 1), (1LL << 62), 9223372036854775807LL, -9223372036854775807LL };   // LLONG_MIN left out: `-rhs` overflows in every implementation (UB)
 		for (long long x : I) from_int_all(x);
+		// every power of two, its neighbours and the 1.5 * 2^k tie points with their neighbours: the branches of the hand-written
+		// integer_assign routines (round bit, sticky bits, tie on the last encoding bit, clamp thresholds, 32 -> 64 bit widening)
+		for (int k = 0; k < 64; ++k) {
+			const ull p2 = 1ull << k, t15 = (k ? (3ull << (k - 1)) : 0);
+			const ull W[] = { p2, p2 - 1, p2 + 1, t15, t15 - 1, t15 + 1, p2 + (p2 >> 1) + (p2 >> 2), p2 | 1ull };
+			for (ull w : W) {
+				if (k && w == 0) continue;
+				from_uint_all(w);
+				if (w <= 9223372036854775807ull) { from_int_all((long long)w); from_int_all(-(long long)w); }
+			}
+		}
 		const ull Uv[] = { 9223372036854775807ull, 9223372036854775808ull, 9223372036854775809ull, 18446744073709551615ull, 18446744073709551614ull, 4294967295ull, 4294967296ull };
 		for (ull x : Uv) from_uint_all(x);
 		const double D[] = { 0.0, -0.0, 1.0, -1.0, std::numeric_limits<double>::infinity(), -std::numeric_limits<double>::infinity(),
@@ -258,9 +269,44 @@ struct Run {
 		}
 		}
 	}
+	// smallest positive encoding whose value is >= x (x > 0); NARENC when there is none
+	static uint64_t enc_at_least(double x) {
+		uint64_t lo = 1, hi = NARENC;
+		while (lo < hi) { uint64_t mid = lo + (hi - lo) / 2; if (pval(nbits, es, mid) >= x) hi = mid; else lo = mid + 1; }
+		return lo;
+	}
+	// products / quotients whose exact value sits at the ends of the regime range (the word is filled by the regime and the
+	// exponent bits are the round and sticky bits): 2^s for the top five and bottom five scales, and one ulp beside them
+	static void regime_end_pairs() {
+		const int S = (int)(nbits - 2) * (1 << es);
+		for (int s = S - 5; s <= S + 1; ++s) for (int sg = 0; sg < 2; ++sg) {
+			const int t = sg ? -s : s;
+			for (int i = -S; i <= S; ++i) {
+				const int j = t - i;
+				if (j < -S || j > S) continue;
+				const uint64_t a = enc_at_least(std::ldexp(1.0, i)), b = enc_at_least(std::ldexp(1.0, j));
+				if (a >= NARENC || b >= NARENC) continue;
+				const uint64_t A[] = { a, (a + 1) & M, a > 1 ? a - 1 : a }, B[] = { b, (~b + 1) & M };
+				for (uint64_t x : A) for (uint64_t y : B) { if (x == 0 || x == NARENC) continue; binary(x, y); binary(y, x); }
+			}
+		}
+	}
+	// read-back of the encodings around 2^k for the k at which a native integer type ends
+	static void int_boundary_readback() {
+		const int K[] = { 0, 1, 7, 8, 15, 16, 23, 24, 25, 30, 31, 32, 33, 52, 53, 62, 63, 64 };
+		for (int k : K) {
+			const uint64_t u = enc_at_least(std::ldexp(1.0, k));
+			for (int d = -3; d <= 3; ++d) {
+				const uint64_t x = u + (uint64_t)(int64_t)d;
+				if (x == 0 || x >= NARENC) continue;
+				to_native(x); to_native((~x + 1) & M);
+			}
+		}
+	}
 	static void random(uint64_t count) {
 		uv::Rng g(uv::seed_from_env() * 1000003ull + nbits * 131ull + es);
-		if (g_conv) fixed_sources();
+		if (g_conv) { fixed_sources(); int_boundary_readback(); }
+		if (g_arith) regime_end_pairs();
 		for (uint64_t i = 0; i < count; ++i) {
 			uint64_t a = operand(g), b;
 			switch (g.below(6)) {
